@@ -90,7 +90,7 @@ def run(ctx):
     gensets = [("A", [1, 2, 3], dict(MAXCACHE=1, MAXDAT=3, KEEP=0, MAXRECS=3, MAXREOPEN=1))]
     if not quick:
         gensets += [("B", [1, 2, 3], dict(MAXCACHE=2, MAXDAT=2, KEEP=1, MAXRECS=3, MAXREOPEN=2)),
-                    ("C", [1, 2, 3, 4], dict(MAXCACHE=1, MAXDAT=0, KEEP=0, MAXRECS=4, MAXREOPEN=1))]
+                    ("C", [1, 2, 3, 4], dict(MAXCACHE=1, MAXDAT=0, KEEP=0, MAXRECS=3, MAXREOPEN=1))]
     first_lines = None
     for tag, blocks, d in gensets:
         dd = dict(d, BLOCKS=",".join(map(str, blocks)), EMITAT=0)
